@@ -48,45 +48,63 @@ def _report_to_dict(rep) -> Dict[str, Any]:
     }
 
 
+def _err(cfg, msg):
+    return {"cfg": cfg, "error": msg, "obligations": [], "labels": [], "applicable": False, "shape": {}, "trace": [], "solver_time": 0.0}
+
+
 def _run_subtree(task):
+    """Explore at most `budget` paths below a prefix; hand the unexplored siblings back."""
     from . import rulecheck
 
-    cfg_index, prefix = task
+    cfg_index, prefix, budget = task
     cfg = rulecheck.RULE_CONFIGS[cfg_index]
     out = []
+    pending = []
     try:
-        for o in explore(rulecheck.RuleRun(_I, cfg), initial=[prefix]):
+        outs, pending = explore(rulecheck.RuleRun(_I, cfg), initial=[prefix], budget=budget)
+        for o in outs:
             if o.error is not None:
-                out.append({"cfg": cfg[0], "error": f"out-of-subset: {o.error}", "obligations": [], "labels": [], "applicable": False, "shape": {}, "trace": [], "solver_time": 0.0})
+                out.append(_err(cfg[0], f"out-of-subset: {o.error}"))
             else:
                 out.append(_report_to_dict(o.result))
     except OutOfSubset as e:
-        out.append({"cfg": cfg[0], "error": f"out-of-subset: {e}", "obligations": [], "labels": [], "applicable": False, "shape": {}, "trace": [], "solver_time": 0.0})
-    return out
+        out.append(_err(cfg[0], f"out-of-subset: {e}"))
+    except Exception as e:  # noqa: BLE001  engine failure on this subtree: reported, never silent
+        import traceback
+
+        out.append(_err(cfg[0], f"engine-error: {e!r} {traceback.format_exc()[-400:]}"))
+    return cfg_index, out, pending
 
 
-def run_all(repo="/repo", want=None, nproc=None, timeout_ms=10000, configs=None, frontier=24) -> List[Dict[str, Any]]:
-    """Explore every rule configuration.  The first levels of each decision tree are expanded in
-    the parent process; the pending subtrees are farmed out to a process pool."""
+def run_all(repo="/repo", want=None, nproc=None, timeout_ms=10000, configs=None, budget=40, progress=None) -> List[Dict[str, Any]]:
+    """Explore every rule configuration on a process pool.  Work is split dynamically: a worker
+    explores a bounded number of paths below a decision prefix and returns the pending siblings."""
     from . import rulecheck
 
     nproc = nproc or min(16, os.cpu_count() or 4)
-    _worker_init(repo, want, timeout_ms)
-    tasks = []
     reports: List[Dict[str, Any]] = []
-    for i, cfg in enumerate(rulecheck.RULE_CONFIGS):
-        if configs is not None and cfg[0] not in configs:
-            continue
-        outs, pending = explore(rulecheck.RuleRun(_I, cfg), stop_when_frontier=frontier)
-        for o in outs:
-            if o.error is not None:
-                reports.append({"cfg": cfg[0], "error": f"out-of-subset: {o.error}", "obligations": [], "labels": [], "applicable": False, "shape": {}, "trace": [], "solver_time": 0.0})
-            else:
-                reports.append(_report_to_dict(o.result))
-        tasks += [(i, p) for p in pending]
-    if tasks:
-        ctx = mp.get_context("fork")
-        with ctx.Pool(nproc, initializer=_worker_init, initargs=(repo, want, timeout_ms)) as pool:
-            for res in pool.imap_unordered(_run_subtree, tasks, chunksize=1):
-                reports.extend(res)
+    queue = [(i, [], budget) for i, cfg in enumerate(rulecheck.RULE_CONFIGS) if configs is None or cfg[0] in configs]
+    ctx = mp.get_context("fork")
+    inflight = []
+    done = 0
+    with ctx.Pool(nproc, initializer=_worker_init, initargs=(repo, want, timeout_ms)) as pool:
+        while queue or inflight:
+            while queue and len(inflight) < nproc * 3:
+                inflight.append(pool.apply_async(_run_subtree, (queue.pop(),)))
+            still = []
+            progressed = False
+            for r in inflight:
+                if r.ready():
+                    cfg_index, out, pending = r.get()
+                    reports.extend(out)
+                    queue.extend((cfg_index, p, budget) for p in pending)
+                    done += 1
+                    progressed = True
+                else:
+                    still.append(r)
+            inflight = still
+            if progress is not None and progressed and done % 50 == 0:
+                progress(done, len(queue), len(reports))
+            if not progressed:
+                time.sleep(0.01)
     return reports
